@@ -5,6 +5,7 @@ Everything here is computed from the JSON fact file written by /verif/driver (MI
 type-checked crate). No source text is read, nothing from /repo is executed.
 """
 import json
+import os
 import re
 from collections import defaultdict, deque
 
@@ -14,6 +15,8 @@ STD_VARIANTS = {
     'std::ops::ControlFlow': {0: 'Continue', 1: 'Break'},
     'std::ops::Bound': {0: 'Included', 1: 'Excluded', 2: 'Unbounded'},
     'std::borrow::Cow': {0: 'Borrowed', 1: 'Owned'},
+    'std::collections::hash_map::Entry': {0: 'Occupied', 1: 'Vacant'},
+    'std::collections::btree_map::Entry': {0: 'Vacant', 1: 'Occupied'},
 }
 
 
@@ -21,11 +24,63 @@ def strip_crate(s):
     return s.replace('mrecordlog::', '') if s else s
 
 
+def _normalise_consts(j):
+    """(a) operands that name a `&str` const carry its text; (b) format templates whose placeholders are
+    fed by consts (`{}` of a &str const, `width$` of an integer const) are rewritten to the literal form,
+    so that `format!("{}{:0w$}", PREFIX, n, w = DIGITS)` and `format!("wal-{:020}", n)` are the same template."""
+    by_last = {}
+    for c in j.get('consts', []):
+        by_last.setdefault(c['path'].split('::')[-1], []).append(c)
+    texts = {strip_crate(c['path']): c['text'] for c in j.get('consts', []) if c.get('text')}
+    if texts:
+        def visit(v):
+            if isinstance(v, dict):
+                if v.get('k') == 'const' and v.get('named') and strip_crate(v['named']) in texts and not re.match(r'^(const )?"', v.get('text') or ''):
+                    v['text'] = texts[strip_crate(v['named'])]
+                for x in v.values():
+                    visit(x)
+            elif isinstance(v, list):
+                for x in v:
+                    visit(x)
+        for b in j.get('instances', []) + j.get('poly', []):
+            visit(b['blocks'])
+    def const_of(arg):
+        if not isinstance(arg, str) or not arg.startswith('path:'):
+            return None
+        cs = by_last.get(arg[5:].split('::')[-1], [])
+        vals = {(c.get('value'), c.get('text')) for c in cs}
+        return cs[0] if len(vals) == 1 and cs else None
+    for fa in j.get('format_args', []):
+        args = fa.get('args')
+        if not args:
+            continue
+        pieces = []
+        for pc in fa['pieces']:
+            if 'trait' in pc:
+                if pc.get('width') == 'dynamic' and pc.get('width_arg') is not None and pc['width_arg'] < len(args):
+                    c = const_of(args[pc['width_arg']])
+                    if c is not None and c.get('value') is not None:
+                        pc = dict(pc, width=int(c['value']))
+                if pc.get('arg') is not None and pc['arg'] < len(args) and pc['trait'] == 'Display' and pc.get('width') is None and pc.get('precision') is None:
+                    c = const_of(args[pc['arg']])
+                    m = re.match(r'^(?:const )?"(.*)"$', c.get('text') or '') if c is not None else None
+                    if m:
+                        pc = {'lit': m.group(1)}
+            if 'lit' in pc and pieces and 'lit' in pieces[-1]:
+                pieces[-1] = {'lit': pieces[-1]['lit'] + pc['lit']}
+            else:
+                pieces.append(pc)
+        fa['pieces'] = pieces
+
+
 class Facts:
     def __init__(self, path, crate_prefix=None):
         with open(path) as fh:
             self.j = json.load(fh)
         self.path = path
+        import inline
+        self.inline_report = inline.inline_unknown(self.j, inline.load_known()) if not os.environ.get('MRL_NO_INLINE') else {'inlined': [], 'dropped': []}
+        _normalise_consts(self.j)
         self.crate = self.j['crate']
         self.cfg_test = self.j['cfg_test']
         self.nonce = self.j['nonce']
@@ -847,24 +902,48 @@ class Body:
             else:
                 out.append({'point': p, 'kind': 'value', 'rv': rv})
 
+        def residual_origins(cs, depth=0):
+            """Calls whose error this from_residual call propagates (through chained `?` of inlined helpers, A-INLINE)."""
+            origins = []
+            al = cs.arg_local(0)
+            if al is None or depth > 6:
+                return origins
+            def result_origins(l, depth):
+                for o3 in self.trace_local(l):
+                    if o3[0] == 'call':
+                        if 'FromResidual' in o3[1].name and o3[1].name.endswith('::from_residual'):
+                            origins.extend(residual_origins(o3[1], depth + 1))
+                        else:
+                            origins.append(o3[1])
+                    elif o3[0] == 'multi':
+                        for (dp, kind, data) in self.defs.get(o3[1], []):
+                            if kind == 'call':
+                                if 'FromResidual' in data.name and data.name.endswith('::from_residual'):
+                                    origins.extend(residual_origins(data, depth + 1))
+                                else:
+                                    origins.append(data)
+                    elif not origins:
+                        origins.append(o3)
+            for o in self.trace_local(al):
+                if o[0] == 'place':
+                    base = o[2]['l']
+                    for (dp, kind, data) in self.defs.get(base, []):
+                        if kind == 'call' and data.name.endswith('::branch'):
+                            bl = data.arg_local(0)
+                            if bl is not None:
+                                result_origins(bl, depth)
+                        elif kind == 'assign' and data['rv']['k'] == 'agg' and data['rv'].get('inl_try') and data['rv']['variant'] == 'Break':
+                            ol = op_local(data['rv']['ops'][0])
+                            if ol is not None:
+                                result_origins(ol, depth)
+            return origins
+
         def from_call(p, cs):
             if 'FromResidual' in cs.name and cs.name.endswith('::from_residual'):
-                origin = None
-                al = cs.arg_local(0)
-                if al is not None:
-                    for o in self.trace_local(al):
-                        if o[0] == 'place':
-                            base = o[2]['l']
-                            for o2 in self.trace_local(base):
-                                if o2[0] == 'call' and o2[1].name.endswith('::branch'):
-                                    bl = o2[1].arg_local(0)
-                                    if bl is not None:
-                                        for o3 in self.trace_local(bl):
-                                            if o3[0] == 'call':
-                                                origin = o3[1]
-                                            elif origin is None:
-                                                origin = o3
-                out.append({'point': p, 'kind': 'err_prop', 'call': origin, 'residual_call': cs})
+                origins = residual_origins(cs)
+                calls = [o for o in origins if isinstance(o, CallSite)]
+                origin = calls[-1] if calls else (origins[0] if origins else None)
+                out.append({'point': p, 'kind': 'err_prop', 'call': origin, 'calls': calls, 'residual_call': cs})
             else:
                 out.append({'point': p, 'kind': 'forward', 'call': cs})
 
